@@ -270,9 +270,15 @@ NOCOPY_FUNCS = {"np.asarray", "numpy.asarray", "np.asanyarray", "numpy.asanyarra
                 "np.squeeze", "np.transpose"}
 NOCOPY_METHODS = {"reshape", "ravel", "view", "squeeze", "transpose", "swapaxes", "numpy", "to_numpy", "detach", "unsqueeze", "expand", "view_as", "t", "flatten_view",
                   # conversions that return `self` when there is nothing to convert
-                  "to", "float", "double", "half", "long", "int", "bool", "type", "type_as", "contiguous", "cpu", "cuda", "astype_nocopy", "requires_grad_", "as_subclass", "flatten",
+                  "to", "float", "double", "type", "type_as", "contiguous", "cpu", "cuda", "astype_nocopy", "requires_grad_", "as_subclass", "flatten",
                   "narrow", "select", "permute", "expand_as", "unbind", "real"}
 NOCOPY_ATTRS = {"values", "T", "data", "real", "value", "weight", "mT"}
+
+
+DATA_TENSOR_ATTRS = {
+    "Dataset": {"values", "mask", "timepoints", "event_time", "event_bool", "covariates", "L2_norm_per_ft", "n_observations_per_ft"},
+    "IndividualData": {"timepoints", "observations"},
+}
 
 
 def inplace_on_argument_views(ctx, funcs=None):
@@ -285,7 +291,9 @@ def inplace_on_argument_views(ctx, funcs=None):
     for f in (funcs if funcs is not None else ctx.ix.iter_funcs()):
         a = f.node.args
         params = {p.arg for p in a.posonlyargs + a.args + a.kwonlyargs} - {"self", "cls"}
-        if not params:
+        # data containers handed in by the caller: their tensors are inputs too (reading methods must not rewrite them through a view)
+        self_attrs = DATA_TENSOR_ATTRS.get(f.cls[1], set()) if f.cls is not None else set()
+        if not params and not self_attrs:
             continue
         tainted = {}
 
@@ -309,7 +317,11 @@ def inplace_on_argument_views(ctx, funcs=None):
                 b = e.value
                 if isinstance(b, _ast.Name) and b.id in params and b.id not in tainted:
                     return b.id
+                if isinstance(b, _ast.Name) and b.id == "self" and self_attrs:
+                    return f"self.{e.attr}"
                 return view_of(b)
+            if isinstance(e, _ast.Attribute) and isinstance(e.value, _ast.Name) and e.value.id == "self" and self_attrs and e.attr in self_attrs:
+                return f"self.{e.attr}"  # a tensor / array held by the object itself (e.g. Dataset.values)
             if isinstance(e, _ast.Subscript):
                 return view_of(e.value)
             return None
@@ -332,7 +344,7 @@ def inplace_on_argument_views(ctx, funcs=None):
                 for tg in n.targets:
                     if isinstance(tg, _ast.Subscript):
                         src = view_of(tg.value)
-                        if src is not None:
+                        if src is not None and not (src.startswith("self.") and _U(tg.value).startswith("self.")):
                             out.append((f, n, f"`{_U(n)[:60]}` writes into a (possible) view of the argument `{src}`"))
             elif isinstance(n, _ast.Call):
                 if isinstance(n.func, _ast.Attribute) and n.func.attr.endswith("_") and not n.func.attr.endswith("__") and len(n.func.attr) > 1 and n.func.attr not in INPLACE_FREE:
